@@ -210,6 +210,12 @@ class Processor(Iface, TProcessor):
         except VerifError as err:
             msg_type = TMessageType.REPLY
             result.err = err
+        except OtherError as other:
+            msg_type = TMessageType.REPLY
+            result.other = other
+        except ThirdError as third:
+            msg_type = TMessageType.REPLY
+            result.third = third
         except TApplicationException as ex:
             logging.exception('TApplication exception in handler')
             msg_type = TMessageType.EXCEPTION
@@ -236,6 +242,9 @@ class Processor(Iface, TProcessor):
         except VerifError as err:
             msg_type = TMessageType.REPLY
             result.err = err
+        except OtherError as other:
+            msg_type = TMessageType.REPLY
+            result.other = other
         except TApplicationException as ex:
             logging.exception('TApplication exception in handler')
             msg_type = TMessageType.EXCEPTION
@@ -449,17 +458,21 @@ fail_args.thrift_spec = (
 
 
 class fail_result(TBase):
-    __slots__ = ('success', 'err')
+    __slots__ = ('success', 'err', 'other', 'third')
 
-    def __init__(self, success=None, err=None):
+    def __init__(self, success=None, err=None, other=None, third=None):
         self.success = success
         self.err = err
+        self.other = other
+        self.third = third
 
 
 all_structs.append(fail_result)
 fail_result.thrift_spec = (
     (0, TType.STRING, 'success', 'UTF8', None, ),  # 0
     (1, TType.STRUCT, 'err', [VerifError, None], None, ),  # 1
+    (2, TType.STRUCT, 'other', [OtherError, None], None, ),  # 2
+    (3, TType.STRUCT, 'third', [ThirdError, None], None, ),  # 3
 )
 
 
@@ -478,16 +491,18 @@ vfail_args.thrift_spec = (
 
 
 class vfail_result(TBase):
-    __slots__ = ('err',)
+    __slots__ = ('err', 'other')
 
-    def __init__(self, err=None):
+    def __init__(self, err=None, other=None):
         self.err = err
+        self.other = other
 
 
 all_structs.append(vfail_result)
 vfail_result.thrift_spec = (
     None,  # 0
     (1, TType.STRUCT, 'err', [VerifError, None], None, ),  # 1
+    (2, TType.STRUCT, 'other', [OtherError, None], None, ),  # 2
 )
 
 
